@@ -200,6 +200,7 @@ FAMILIES = {
 GRIDS = {"uniform": [0.0, 0.5, 1.0, 1.5], "ragged": [0.0, 0.01, 0.7, 0.75, 1.9], "decreasing": [1.0, 0.6, 0.55, -0.2], "two": [0.3, 0.9], "long": [0.0, 4.0],
          # monotone but not strictly: a requested time may be repeated (also as the first interval); times far from the origin with a
          # spacing that is tiny relative to their magnitude
+         "verylong": [0.0, 3.0, 8.0],
          "repeated": [0.0, 0.5, 0.5, 1.2], "repeated-first": [0.3, 0.3, 0.9], "offset": [1000.0, 1000.004, 1000.3, 1000.31], "offset-decreasing": [-500.0, -500.2, -500.201]}
 
 
@@ -288,6 +289,11 @@ def adaptive_case(tid, method, fam, gridname, atol, rtol):
     bound = 3.0 * max(sink.naccept, 1) * (atol + rtol * ymax) * math.exp(F["L"] * T)
     err = float((yt - ref).abs().max())
     verd.append(["global_error_within_bound", err <= bound])
+    if fam == "decay":
+        # pure decay: a local error committed at time s shrinks like the solution itself, so the error at every requested time is
+        # bounded RELATIVE to the solution there (this is what a relative tolerance promises; an absolute bound cannot see it)
+        relb = 3.0 * max(sink.naccept, 1) * (atol + rtol * ref.abs())
+        verd.append(["error_relative_to_the_decayed_solution", bool(torch.all((yt - ref).abs() <= relb))])
     # values at a time do not depend on times requested after it
     ok = True
     for i in range(2, len(ts)):
@@ -418,10 +424,12 @@ def run(ctx):
     for method in ("rk23", "rk45"):
         for fam in FAMILIES:
             for gname in GRIDS:
-                for (atol, rtol) in tols:
+                for (atol, rtol) in tols + ([(1e-14, 1e-6)] if fam == "decay" and gname in ("long", "verylong", "uniform") else []):
                     if method == "rk23" and rtol < 1e-9:
                         continue
                     if gname.startswith("repeated") and (atol, rtol) != tols[0]:
+                        continue
+                    if gname == "verylong" and fam != "decay":
                         continue
                     tid += 1
                     traces.append(adaptive_case(tid, method, fam, gname, atol, rtol))
